@@ -134,7 +134,7 @@ def run_rgg(args, stdin_text=None):
 
 
 def parse_edges(out):
-    return [tuple(l.strip().split(',')) for l in out.strip().split('\n') if l.strip()]
+    return [tuple(x.strip() for x in l.strip().split(',')) for l in out.strip().split('\n') if l.strip()]
 
 
 def unit_request(V, E, und, complete, opts):
